@@ -9,6 +9,8 @@ import (
 	"go.etcd.io/etcd/clientv3"
 	"go.etcd.io/etcd/etcdserver/etcdserverpb"
 	"google.golang.org/grpc"
+	"google.golang.org/grpc/codes"
+	"google.golang.org/grpc/status"
 )
 
 // Hold holds ONE chosen etcd request of a client dialled with DialHeld: either before it is sent or after etcd has
@@ -21,6 +23,10 @@ type Hold struct {
 	after   bool
 	reached chan struct{}
 	release chan struct{}
+
+	failSuffix string // transactions that put / delete a key with this suffix fail (are not sent) ...
+	failLeft   int    // ... this many more times
+	failed     int
 }
 
 const (
@@ -35,6 +41,21 @@ func (h *Hold) Arm(method, suffix string, after bool) (reached, release chan str
 	h.method, h.suffix, h.after = method, suffix, after
 	h.reached, h.release = make(chan struct{}), make(chan struct{})
 	return h.reached, h.release
+}
+
+// FailTxn: the next `times` transactions of this client that put or delete a key ending in suffix fail with a transport
+// error and are not sent (etcd cannot commit writes for a while; reads and everything else still work).
+func (h *Hold) FailTxn(suffix string, times int) {
+	h.mu.Lock()
+	h.failSuffix, h.failLeft = suffix, times
+	h.mu.Unlock()
+}
+
+// Failed reports how many transactions FailTxn has failed so far (cumulative).
+func (h *Hold) Failed() int {
+	h.mu.Lock()
+	defer h.mu.Unlock()
+	return h.failed
 }
 
 // Disarm cancels a hold that has not fired.
@@ -55,9 +76,7 @@ func (h *Hold) take(method string, req interface{}) (after bool, reached, releas
 	case *etcdserverpb.RangeRequest:
 		key = string(r.Key)
 	case *etcdserverpb.TxnRequest:
-		if len(r.Success) == 1 && r.Success[0].GetRequestPut() != nil {
-			key = string(r.Success[0].GetRequestPut().Key)
-		}
+		key = txnKey(r)
 	}
 	if key == "" || !strings.HasSuffix(key, h.suffix) {
 		return false, nil, nil
@@ -66,8 +85,32 @@ func (h *Hold) take(method string, req interface{}) (after bool, reached, releas
 	return h.after, h.reached, h.release
 }
 
+func txnKey(req interface{}) string {
+	r, ok := req.(*etcdserverpb.TxnRequest)
+	if !ok || len(r.Success) != 1 {
+		return ""
+	}
+	if p := r.Success[0].GetRequestPut(); p != nil {
+		return string(p.Key)
+	}
+	if d := r.Success[0].GetRequestDeleteRange(); d != nil {
+		return string(d.Key)
+	}
+	return ""
+}
+
 func (h *Hold) intercept(ctx context.Context, method string, req, reply interface{}, cc *grpc.ClientConn,
 	invoker grpc.UnaryInvoker, opts ...grpc.CallOption) error {
+	if method == MethodTxn {
+		h.mu.Lock()
+		if k := txnKey(req); h.failLeft > 0 && k != "" && strings.HasSuffix(k, h.failSuffix) {
+			h.failLeft--
+			h.failed++
+			h.mu.Unlock()
+			return status.Error(codes.Unknown, "verif: injected etcd write failure")
+		}
+		h.mu.Unlock()
+	}
 	after, reached, release := h.take(method, req)
 	if reached == nil {
 		return invoker(ctx, method, req, reply, cc, opts...)
